@@ -16,7 +16,7 @@ RULE = ('cases = corpus + templates (all statement kinds) x 3 dialects, token-le
 ASSUMPTIONS = ['token sequence is the library lexer\'s (lexical correctness is C04)',
                'Parser._grammar.Productions is the grammar the tables were built from',
                'SLY calls Production.func for every reduction (sly/yacc.py parse loop)']
-BUDGET = {'quick': (8, 60), 'thorough': (16, 400)}
+BUDGET = {'quick': (8, 240), 'thorough': (16, 1800)}
 
 SIZES = {'quick': dict(n_templates=1500, n_mut=24000, n_soup=3000),
          'thorough': dict(n_templates=12000, n_mut=400000, n_soup=40000, n_gram=150000)}
